@@ -1,7 +1,7 @@
 """C12: per-actor certificates + glue (see lean/Poupool/Properties/C12.lean and checks/actors_common.py)."""
 from checks import actors_common as ac
 
-THEOREMS = ['Poupool.C12.open_needs_tank', 'Poupool.C12.refused_request_changes_nothing', 'Poupool.C12.cover_sequencing', 'Poupool.C12.pumps_off_while_cover_moves', 'Poupool.C12.cover_stopped_when_phase_left', 'Poupool.C07.wash_needs_high_tank', 'Poupool.C06.comfort_to_standby_is_guarded']
+THEOREMS = ['Poupool.C12.open_needs_tank', 'Poupool.C12.refused_request_changes_nothing', 'Poupool.C12.cover_sequencing', 'Poupool.C12.pumps_off_while_cover_moves', 'Poupool.C12.cover_stopped_when_phase_left', 'Poupool.C12.opened_only_at_100', 'Poupool.C12.closed_only_at_eco_position', 'Poupool.C12.decade_range', 'Poupool.C07.wash_needs_high_tank', 'Poupool.C06.comfort_to_standby_is_guarded']
 MODULE = "Poupool.Properties.C12"
 
 
@@ -18,3 +18,79 @@ def search(chk):
 
 def replay(path):
     return ac.replay(path)
+
+
+_COVER = r"""
+import sys, json
+sys.path.insert(0, %r)
+from sim.system import PoolSystem
+s = PoolSystem()
+w = s.world
+F = w.actor("Filtration")
+machine = F._Filtration__machine
+class Fut:
+    def __init__(self, v): self.v = v
+    def get(self, timeout=None): return self.v
+class FakeA:
+    pos = 0
+    def cover_position(self): return Fut(FakeA.pos)
+F.get_actor = lambda name: FakeA()
+out = []
+def one(kind, p, e):
+    FakeA.pos = p
+    F._Filtration__cover_position_eco = e
+    machine.set_state("opening_standby" if kind == "open" else "closing")
+    F.actor_inbox.items.clear(); F.do_cancel()
+    n0 = len(w.log)
+    (F.do_repeat_opening if kind == "open" else F.do_repeat_closing)()
+    timers = [x[2] for x in w.log[n0:] if x[1] == "timer_start"]
+    pubs = [x[2][1] for x in w.log[n0:] if x[1] == "publish" and x[2][0] == "/status/filtration/state"]
+    told = w.inbox_names("Filtration")
+    if told:
+        act = "done0" if told[0].split("@")[0] in ("closed", "opened") else "?" + str(told)
+    elif timers and timers[-1][1] in ("opened", "closed"):
+        act = "done2" if timers[-1][2] == 2 else "done?%%s" %% timers[-1][2]
+    elif timers:
+        act = "poll"
+    else:
+        act = "NOTHING"
+    dec = pubs[-1].split("_")[-1] if pubs else "?"
+    return "%%s %%s" %% (act, dec)
+for p in range(0, 101):
+    out.append(["open", p, 0, one("open", p, 0)])
+for p in range(0, 101):
+    for e in range(0, 101):
+        out.append(["close", p, e, one("close", p, e)])
+print("RESULT " + json.dumps(out))
+""" % __import__("vlib.common").common.VERIF
+
+
+def extra(chk, info, res):
+    """exhaustive differential test of the cover polls: every position 0..100 (x every eco position 0..100)"""
+    import json
+    import os
+    import subprocess
+
+    from vlib import lean
+    from vlib.common import REPO
+
+    p = subprocess.run(["/venv/bin/python", "-c", _COVER], capture_output=True, text=True, timeout=900, env={**os.environ, "POUPOOL_REPO": REPO})
+    real = None
+    for line in p.stdout.split("\n"):
+        if line.startswith("RESULT "):
+            real = json.loads(line[7:])
+    if real is None:
+        chk.obligation("harness: real do_repeat_opening/do_repeat_closing with a stubbed Arduino answer", False, (p.stdout + p.stderr)[-1200:])
+        return
+    lines = [f"open {p_}" if k == "open" else f"close {p_} {e}" for (k, p_, e, r) in real]
+    model = lean.driver("Poupool/Drivers/Cover.lean", lines)
+    bad = [(k, p_, e, r, m) for (k, p_, e, r), m in zip(real, model) if r != m]
+    chk.correspondence("Filtration.do_repeat_opening / do_repeat_closing (REAL methods, stubbed Arduino answer) vs Model/Cover.lean: EXHAUSTIVE over position 0..100 x eco position 0..100", len(real), len(bad), detail=bad[:5] or None)
+    chk.extra["exhaustive"] = True
+    for (k, p_, e, r, m) in bad[:3]:
+        if k == "open" and r.startswith("done") and p_ != 100:
+            chk.violation("opened-before-fully-open", f"do_repeat_opening requests `opened` at reported position {p_} (< 100): the open mode is entered and the pumps start before the cover reported fully open", {"kind": "cover-poll", "poll": "opening", "position": p_})
+        elif k == "close" and r.startswith("done") and p_ > e:
+            chk.violation("closed-before-eco-position", f"do_repeat_closing requests `closed` at position {p_} > configured eco position {e}", {"kind": "cover-poll", "poll": "closing", "position": p_, "eco": e})
+        elif r.startswith("poll") and ((k == "open" and p_ == 100) or (k == "close" and p_ <= e)):
+            chk.violation("cover-phase-not-left", f"the cover poll keeps polling although the cover reported the target position ({k}, position {p_}, eco {e})", {"kind": "cover-poll", "poll": k, "position": p_, "eco": e})
